@@ -168,7 +168,38 @@ func runItem(s *exec.State, rec abs.V) {
 	}
 }
 
-var extraScripts = map[string]func(*exec.State, abs.V){}
+var extraScripts = map[string]func(*exec.State, abs.V){
+	"frames": func(s *exec.State, rec abs.V) {
+		var frames [][]byte
+		for _, f := range abs.List(rec["frames"]) {
+			frames = append(frames, abs.GoBytes(f))
+		}
+		scriptFrames(s, frames)
+	},
+}
+
+// scriptFrames: each frame alone, then the concatenation (C06 locality,
+// all-or-nothing, split), then the C09 follow-up. At most 6 frames.
+func scriptFrames(s *exec.State, frames [][]byte) {
+	s.Reset()
+	var whole []byte
+	var parts []int
+	for i, f := range frames {
+		h := 10 + i
+		s.SetBuf(h, f)
+		s.Datagram(h, h)
+		parts = append(parts, h)
+		whole = append(whole, f...)
+	}
+	s.SetBuf(1, whole)
+	s.DatagramParts(1, 4, parts)
+	if has(s, 4) {
+		s.Marshal(4)
+		if s.Buf[4] != nil {
+			s.Datagram(4, 5)
+		}
+	}
+}
 
 func min(a, b int) int {
 	if a < b {
